@@ -100,7 +100,10 @@ def gen_case(rnd):
             h = max(h, -1e4)
         argt = rnd.choice(ax.ANGLE_CLASSES) if rnd.random() < 0.2 else 'float'
         api = 'coord' if rnd.random() < 0.1 else 'func'
-        return {'mode': 'geo', 'ell': ell, 'lat': lat, 'lon': lon, 'h': min(max(h, -1e4), 4e7), 'argt': argt, 'api': api}
+        c = {'mode': 'geo', 'ell': ell, 'lat': lat, 'lon': lon, 'h': min(max(h, -1e4), 4e7), 'argt': argt, 'api': api}
+        if api == 'coord' and rnd.random() < 0.3:
+            c['h'], c['no_height'] = 0.0, True
+        return c
     # Cartesian drawn directly: distance from the axis log-uniform, all octants, height within range
     p = 10 ** rnd.uniform(-9, 7.6)
     th = rnd.uniform(-math.pi, math.pi)
@@ -143,7 +146,10 @@ def judge(ns, ctx, case):
             if case.get('api') == 'coord':
                 if argt == 'float':
                     la, lo = float(la), float(lo)
-                c = ns.coord.CoordGeo(la, lo, h).cart(ell)
+                if h == 0 and case.get('no_height'):
+                    c = ns.coord.CoordGeo(la, lo).cart(ell)        # no ellipsoidal height given: converted at 0 m
+                else:
+                    c = ns.coord.CoordGeo(la, lo, h).cart(ell)
                 x, y, z = c.xaxis, c.yaxis, c.zaxis
             else:
                 x, y, z = ns.convert.llh2xyz(la, lo, h, ell)
